@@ -377,8 +377,9 @@ func c09Targeted(r *proto.Rng) (c09Case, string) {
 	s1, s2 := "\n"+sels[pr[0]]+"\n", "\n"+sels[pr[1]]+"\n"
 	shape := pr[0] + "/" + pr[1]
 	attack := proto.Pick(r, []string{"shared-typename-one-op", "shared-typename-two-ops", "shared-typename-two-types", "alias-concatenation",
-		"typename-like-generated", "fragment-like-generated", "fragment-impl-like-fragment", "nested-abstract-inline", "fragment-or-typename-like-enum", "shortened-name-coincidence", "name-registered-while-converting", "shared-typename-spread-vs-inline"})
+		"typename-like-generated", "fragment-like-generated", "fragment-impl-like-fragment", "nested-abstract-inline", "fragment-or-typename-like-enum", "shortened-name-coincidence", "name-registered-while-converting", "shared-typename-spread-vs-inline", "shared-typename-below-unbound-field"})
 	ops := ""
+	cfgBindUser := false
 	switch attack {
 	case "shared-typename-one-op":
 		ops = fmt.Sprintf("query Q {\n  # @genqlient(typename: \"T\")\n  user { %s }\n  # @genqlient(typename: \"T\")\n  friend { %s }\n}\n", s1, s2)
@@ -463,6 +464,17 @@ func c09Targeted(r *proto.Rng) (c09Case, string) {
 		if twoFrags {
 			ops += "fragment UF2 on User {\n id\n name\n}\n"
 		}
+	case "shared-typename-below-unbound-field":
+		// User is bound in genqlient.yaml; both places override the binding (`bind: "-"`), so structs ARE generated for
+		// them — with different fields below the same typename: a clash that must be reported
+		first := r.Bool()
+		shape = fmt.Sprint("wide-first=", first)
+		x, y := "id\nname", "id"
+		if !first {
+			x, y = y, x
+		}
+		ops = fmt.Sprintf("query Q {\n  # @genqlient(typename: \"T\")\n  pet {\n id\n # @genqlient(bind: \"-\")\n owner {\n%s\n }\n }\n}\nquery R {\n  # @genqlient(typename: \"T\")\n  pet {\n id\n # @genqlient(bind: \"-\")\n owner {\n%s\n }\n }\n}\n", x, y)
+		cfgBindUser = true
 	case "shortened-name-coincidence":
 		// `query Get { viewer {…} }` (viewer: CurrentUser) and `query GetViewer { currentUser {…} }` (currentUser: User):
 		// Get+Viewer+CurrentUser and GetViewer+CurrentUser(+User, shortened away) are the same Go name for two GraphQL types
@@ -480,6 +492,9 @@ func c09Targeted(r *proto.Rng) (c09Case, string) {
 		ops = fmt.Sprintf("query Q {\n  node {\n    id\n    ... on Node {\n ... on User {\n friend { %s }\n }\n ... on Pet {\n owner { %s }\n }\n }\n  }\n  other {\n ... on User {\n bc {\n id\n user { %s }\n }\n }\n }\n}\n", s1, s2, s1)
 	}
 	cfg := ProgCfg{Package: "gen"}
+	if cfgBindUser {
+		cfg.Bindings = map[string]map[string]string{"User": {"type": "map[string]interface{}"}}
+	}
 	return c09Case{Leg: "targeted", Attack: attack, Schema: map[string]string{"schema.graphql": c09Schema}, Ops: map[string]string{"ops.graphql": ops}, Cfg: cfg}, attack + "|" + shape
 }
 
@@ -506,7 +521,7 @@ func c09One(c *Ctx, cs c09Case, key string) {
 		c.Res.Count("outcome:" + cs.Attack + ":rejected: " + errSignature(stripPos(out.Err.Error())))
 	default:
 		c.Res.Count("outcome:" + cs.Attack + ":generated")
-		if cs.Attack == "name-registered-while-converting" || cs.Attack == "shared-typename-spread-vs-inline" {
+		if cs.Attack == "name-registered-while-converting" || cs.Attack == "shared-typename-spread-vs-inline" || cs.Attack == "shared-typename-below-unbound-field" {
 			c.Res.Add(proto.Finding{Kind: "violation", Class: "wrong-type-reused", What: "two places that need different Go declarations under one name (" + key + "): generation succeeded, so one of them uses the other's type:\n" + cs.Ops["ops.graphql"], Case: cs})
 		}
 		if cs.Attack == "fragment-or-typename-like-enum" {
